@@ -1573,7 +1573,7 @@ class Evaluator:
             if same(a, b):
                 return Const(pos)
             if isinstance(b, Const) and b.v is None and isinstance(a, App) and (
-                    a.name in ('copy', 'setitem', 'dict.updated', 'dict.without') or (
+                    a.name in ('copy', 'setitem', 'dict.updated', 'dict.without', 'to') or (
                         a.name == 'apply' and a.args and isinstance(a.args[0], App)
                         and a.args[0].name in ('attr:copy', 'attr:deepcopy'))):
                 return Const(not pos)          # the result of copying / updating a mapping is a mapping, never None
@@ -2574,6 +2574,12 @@ def _fold_isinstance(model, v, t):
             elif v.ci is None and kind == 'ext' and c in ('dict',) and v.cls in ('RegionMeta', 'RegionVisual'):
                 res = True
         return res
+    if isinstance(v, (sp.Float, sp.Integer, sp.Rational)) and all(k == 'ext' for k, c in names) \
+            and all(c in ('float', 'int', 'bool', 'str', 'list', 'tuple', 'dict') for k, c in names):
+        # a literal number: its Python type is known
+        ty = 'int' if isinstance(v, sp.Integer) else ('float' if isinstance(v, sp.Float) else None)
+        if ty is not None:
+            return any(c == ty for k, c in names)
     if isinstance(v, sp.Basic):
         q = _has_unit(v)
         res = False
